@@ -25,6 +25,7 @@ import NumbersModel.Drv.Sizes
 import NumbersModel.Drv.TablePipeline
 import NumbersModel.Drv.DocTree
 import NumbersModel.Drv.FormatDispatch
+import NumbersModel.Drv.Document
 
 open NumbersModel.Drv
 
@@ -62,6 +63,7 @@ def dispatch (line : String) : String :=
     | "table" :: rest => handleTable rest
     | "doctree" :: rest => handleDocTree rest
     | "fmtd" :: rest => Fmtd.handleFmtd rest
+    | "doc" :: rest => handleDoc rest
     | _ => none
   match r with
   | some s => s
